@@ -22,6 +22,20 @@ package main
 //	  x              Stop()
 //	observation: one token per step: [a.b.c] | dM | n | stopped
 //
+// Stop() during a slow poll round (properties C13 "Close() returns in bounded time … polling is stopped", C07 "closing
+// the stream releases …"; Lean: Model/RmStop.lean, handler `rm-stop-slow`):
+//
+//	rm-stop-slow I D P
+//	  one instance (4 vBuckets, active + 1 replica on two KV nodes), poll interval I ms.  After two ordinary rounds the
+//	  replica's node answers the OBSERVE_SEQNO requests of the next round only after D ms (D >= 3*I: the round outlasts the
+//	  interval, the next tick is buffered in the ticker channel while the goroutine sits in wg.Wait()).  P ms after the
+//	  first delayed request arrived, Stop() is called.
+//	observation: `stopped late-observes=N` – Stop() returned within (D-P) ms + 1 s; N = OBSERVE requests that reached
+//	  any node during 5 intervals after the return; `stopped-late late-observes=N`; `hang` – not back after 4 s (the
+//	  blocked goroutine is left behind).
+//	A stop that hangs only when the goroutine's select takes the buffered tick (both cases are ready when the round ends:
+//	Go picks at random) shows with probability 1/2 per line: every run has rmStopReps lines with different phases.
+//
 // Determinism: one copy changes per step and table; a step ends when every listed copy
 // of the instance has been asked three more times (two complete poll rounds with the
 // new answer); after Stop() the harness waits four poll intervals instead.
@@ -36,6 +50,7 @@ import (
 	"strconv"
 	"strings"
 	"sync"
+	"sync/atomic"
 	"time"
 
 	"github.com/Trendyol/go-dcp/couchbase"
@@ -947,6 +962,166 @@ func (j *rmJob) exec() {
 	j.stopTook = in.stopTook
 }
 
+// ---- Stop() during a slow round
+
+const rmStopReps = 16
+
+type rmStopJob struct {
+	i, d, p int
+	res     string
+	took    time.Duration
+}
+
+func (j *rmStopJob) op() string { return fmt.Sprintf("rm-stop-slow %d %d %d", j.i, j.d, j.p) }
+
+func rmStopParse(op string) (*rmStopJob, bool) {
+	f := strings.Fields(op)
+	if len(f) != 4 || f[0] != "rm-stop-slow" {
+		return nil, false
+	}
+	var v [3]int
+	for k := 0; k < 3; k++ {
+		n, err := strconv.Atoi(f[k+1])
+		if err != nil || n < 0 || n > 2000 {
+			return nil, false
+		}
+		v[k] = n
+	}
+	if v[0] < 5 || v[1] < 3*v[0] || v[2] >= v[1] {
+		return nil, false
+	}
+	return &rmStopJob{i: v[0], d: v[1], p: v[2]}, true
+}
+
+func (j *rmStopJob) exec() {
+	defer func() {
+		if r := recover(); r != nil {
+			j.res = "harness-panic"
+		}
+	}()
+	const nvb = 4
+	interval := time.Duration(j.i) * time.Millisecond
+	delay := time.Duration(j.d) * time.Millisecond
+	phase := time.Duration(j.p) * time.Millisecond
+	node := sim.New(sim.Options{NumVb: nvb, Replicas: 1, KVNodes: 2})
+	for vb := 0; vb < nvb; vb++ {
+		node.SetReplicaMap(uint16(vb), []int{0, 1})
+		node.SetPersist(0, uint16(vb), 5, 10)
+		node.SetPersist(1, uint16(vb), 5, 10)
+	}
+	if err := node.Start(); err != nil {
+		panic(err)
+	}
+	defer node.Close()
+	var observes, replicaObserves atomic.Int64
+	var slow atomic.Bool
+	var once sync.Once
+	slowStart := make(chan time.Time, 1)
+	node.OnRequest(func(r sim.Request) sim.Action {
+		if r.Opcode != memd.CmdObserveSeqNo {
+			return sim.Default()
+		}
+		observes.Add(1)
+		if r.Node != 1 {
+			return sim.Default()
+		}
+		replicaObserves.Add(1)
+		if slow.Load() {
+			once.Do(func() { slowStart <- time.Now() })
+			return sim.Delay(delay)
+		}
+		return sim.Default()
+	})
+	cfg := node.Config("c07stop", "file")
+	cfg.RollbackMitigation.Disabled = false
+	cfg.RollbackMitigation.Interval = interval
+	cfg.RollbackMitigation.ConfigWatchInterval = 20 * time.Millisecond
+	cl := couchbase.NewClient(cfg)
+	if err := cl.Connect(); err != nil {
+		panic(err)
+	}
+	defer cl.Close()
+	if err := cl.DcpConnect(true, false); err != nil {
+		panic(err)
+	}
+	defer cl.DcpClose()
+	vbIds := make([]uint16, nvb)
+	for i := range vbIds {
+		vbIds[i] = uint16(i)
+	}
+	rm := couchbase.NewRollbackMitigation(cl, cfg, vbIds, func(*models.PersistSeqNo) {})
+	// the KV connections to both nodes exist before the code under test polls
+	var wg sync.WaitGroup
+	for vb := 0; vb < nvb; vb++ {
+		for idx := 0; idx < 2; idx++ {
+			wg.Add(1)
+			_, err := cl.GetAgent().ObserveVb(gocbcore.ObserveVbOptions{VbID: uint16(vb), ReplicaIdx: idx,
+				Deadline: time.Now().Add(5 * time.Second)}, func(*gocbcore.ObserveVbResult, error) { wg.Done() })
+			if err != nil {
+				wg.Done()
+			}
+		}
+	}
+	wg.Wait()
+	base := replicaObserves.Load()
+	started := false
+	func() {
+		defer func() {
+			if r := recover(); r != nil {
+				j.res = "start-panic"
+			}
+		}()
+		rm.Start()
+		started = true
+	}()
+	if !started {
+		return
+	}
+	// two ordinary rounds, then the slow one
+	limit := time.Now().Add(10 * time.Second)
+	for replicaObserves.Load() < base+2*nvb && time.Now().Before(limit) {
+		time.Sleep(time.Millisecond)
+	}
+	slow.Store(true)
+	var t0 time.Time
+	select {
+	case t0 = <-slowStart:
+	case <-time.After(5 * time.Second):
+		j.res = "no-round"
+		go rm.Stop()
+		return
+	}
+	time.Sleep(time.Until(t0.Add(phase)))
+	done := make(chan struct{})
+	called := time.Now()
+	go func() { rm.Stop(); close(done) }()
+	select {
+	case <-done:
+	case <-time.After(4 * time.Second):
+		j.res = "hang" // the goroutine blocked in Stop() stays behind
+		j.took = 4 * time.Second
+		return
+	}
+	j.took = time.Since(called)
+	res := "stopped"
+	if j.took > delay-phase+time.Second {
+		res = "stopped-late"
+	}
+	slow.Store(false)
+	c0 := observes.Load()
+	time.Sleep(5 * interval)
+	j.res = fmt.Sprintf("%s late-observes=%d", res, observes.Load()-c0)
+}
+
+func rmRunStopJobs(jobs []*rmStopJob) {
+	var wg sync.WaitGroup
+	for _, j := range jobs {
+		wg.Add(1)
+		go func(j *rmStopJob) { defer wg.Done(); j.exec() }(j)
+	}
+	wg.Wait()
+}
+
 func runC07Rm(c *Ctx) {
 	e := c.E
 	if replayFile != "" {
@@ -960,6 +1135,12 @@ func runC07Rm(c *Ctx) {
 		for sc.Scan() {
 			op := strings.SplitN(sc.Text(), "\t", 2)[0]
 			if strings.TrimSpace(op) == "" {
+				continue
+			}
+			if sj, ok := rmStopParse(strings.TrimSpace(op)); ok {
+				sj.exec()
+				e.Line(op, sj.res)
+				e.EndCase(true, "replay")
 				continue
 			}
 			s, ok := rmParse(op)
@@ -976,6 +1157,42 @@ func runC07Rm(c *Ctx) {
 		return
 	}
 	rng := &Rng{s: rbMix(c.Seed ^ 0xC07B)}
+	// Stop() in the middle of a slow poll round: rmStopReps instances side by side, each with its own interval, delay and phase
+	{
+		srng := &Rng{s: rbMix(c.Seed ^ 0xC13B2)}
+		var sj []*rmStopJob
+		for k := 0; k < c.N(rmStopReps, 4*rmStopReps); k++ {
+			i := srng.Range(15, 25)
+			d := i * srng.Range(3, 6)
+			p := srng.Range(i+3, d-8) // the next tick is buffered, the round still runs
+			if k%8 == 7 {
+				p = srng.Range(1, i-4) // before the next tick
+			}
+			sj = append(sj, &rmStopJob{i: i, d: d, p: p})
+		}
+		t0 := time.Now()
+		for lo := 0; lo < len(sj); lo += rmStopReps {
+			hi := lo + rmStopReps
+			if hi > len(sj) {
+				hi = len(sj)
+			}
+			rmRunStopJobs(sj[lo:hi])
+		}
+		c.Extra["stop_slow_wall_ms"] = time.Since(t0).Milliseconds()
+		var maxTook time.Duration
+		for _, j := range sj {
+			e.Line(j.op(), j.res)
+			tag := "stop-slow-tick-buffered"
+			if j.p < j.i {
+				tag = "stop-slow-before-tick"
+			}
+			e.EndCase(true, tag)
+			if j.took > maxTook {
+				maxTook = j.took
+			}
+		}
+		c.Extra["stop_slow_max_stop_ms"] = maxTook.Milliseconds()
+	}
 	var jobs []*rmJob
 	// directed instance (constant across seeds): the third-round spike of DESIGN.md §3.3 and its neighbours
 	directed := []string{
